@@ -17,6 +17,8 @@ import Rooc.Proofs.WFBounds
 import Rooc.Proofs.WFExamples
 import Rooc.Proofs.WFCompile
 import Rooc.Proofs.WFCompileExamples
+import Rooc.Proofs.WFAnalyzerProper
+import Rooc.Proofs.RatInst
 namespace Rooc.Props.C08
 open Rooc Rooc.Lin Rooc.WFDedup Rooc.Lin.Examples
 
@@ -421,5 +423,63 @@ theorem compile_nonfinite_region_is_needed (tol : Ext Rat) :
   refine ⟨exB, _, by decide, ?_, exB_compile tol, exB_not_finite, ?_⟩
   · simp [NonFiniteLiteralRegion, FiniteLits, exB, infx, allLits, Arith.isFinite, Ext.isFinite]
   · exact compile_report_ok_structural (by decide) (exB_compile tol)
+
+/-! ### 9. every domain of the compiled model is well-formed
+
+`DomainProper d`: every `Real(lo, hi)` of `d` has `lo` finite or `−inf` and `hi` finite or `+inf` (so no NaN end,
+no `Real(+inf, _)`, no `Real(_, −inf)`); every `NonNegativeReal(lo, hi)` has `lo` FINITE with `0 ≤ lo` and `hi`
+finite or `+inf`; Boolean and `IntegerRange` types carry nothing to check (integer boxes are integral by type:
+`VarType.int` has `Int` endpoints, `apply_to_domain` publishes `toI32 ⌈lo − tol⌉ .. toI32 ⌊hi + tol⌋`).
+`K` is any linearly ordered field. -/
+
+section domains
+variable {K : Type} [Field K] [LinearOrder K] [IsStrictOrderedRing K] [FloorRing K]
+
+/-- the LOWERING keeps domains proper: source entries are copied, and every auxiliary is declared with a proper
+range — `$abs_k : NonNegativeReal(0, max(−lo, hi))` where `[lo, hi]` is the derived range of the operand (proper,
+and `hi > 0` or `lo < 0` in that branch), `$min_k / $max_k : Real(lo, hi)` with the derived range of the retained
+operands, Booleans otherwise.  Rests on the second half of the state invariant (`WFInv.BOK`): every entry of the
+bounds map and every declared type is proper, and `bounds_of` maps proper maps to proper ranges. -/
+theorem lowering_keeps_domains_proper {m : Model (Ext K)} {b : BoundsMap (Ext K)} {d : List (DomVar (Ext K))}
+    {lm : LinModel (Ext K)} (hfin : FiniteLits m = true) (hb : BoundsProper b) (hd : DomainProper d)
+    (h : linearizeWith m b d = .ok lm) : DomainProper lm.domain :=
+  domain_proper hfin hb hd h
+
+/-- for the WHOLE compiler: proper declared ranges and finite literals give proper compiled domains, for every
+finite tolerance (of either sign) and every step limit — bound inference (`analyze`, `enforceable`,
+`apply_to_domain`) publishes proper ranges (`APr.analyze_VBP`: every update is the intersection of a proper entry
+with a candidate built from proper ranges and finite coefficients), and the lowering keeps them. -/
+theorem compile_domains_wellformed {m : Model (Ext K)} {t : K} {maxSteps : Nat} {lm : LinModel (Ext K)}
+    (hdecl : DomainProper m.domain) (hfin : FiniteLits m = true)
+    (h : Compile.linearize m (.fin t) maxSteps = .ok lm) : DomainProper lm.domain :=
+  APr.compile_domain_proper hdecl hfin h
+
+/-- the same, spelled out. -/
+theorem compile_domains_wellformed_clauses {m : Model (Ext K)} {t : K} {maxSteps : Nat} {lm : LinModel (Ext K)}
+    (hdecl : DomainProper m.domain) (hfin : FiniteLits m = true)
+    (h : Compile.linearize m (.fin t) maxSteps = .ok lm) :
+    (∀ v ∈ lm.domain, ∀ lo hi, v.ty = .real lo hi →
+      (lo = .ninf ∨ ∃ x, lo = .fin x) ∧ (hi = .pinf ∨ ∃ x, hi = .fin x)) ∧
+    (∀ v ∈ lm.domain, ∀ lo hi, v.ty = .nnreal lo hi → (∃ x, lo = .fin x) ∧ (hi = .pinf ∨ ∃ x, hi = .fin x)) ∧
+    (∀ v ∈ lm.domain, ∀ lo hi, v.ty = .nnreal lo hi → Ext.le (.fin 0) lo = true) :=
+  domain_proper_clauses (compile_domains_wellformed hdecl hfin h)
+
+end domains
+
+/-- non-vacuity (at `ℚ`, where the theorems' instance is the running one, `fieldExact_rat`): `exA` has proper
+declared ranges and finite literals, compiles, and its compiled domain is proper. -/
+example : ∃ lm : LinModel (Ext ℚ), Compile.linearize exA (.fin 0) 0 = .ok lm ∧ DomainProper (K := ℚ) lm.domain := by
+  have hdecl : DomainProper (K := ℚ) exA.domain := by
+    intro v hv
+    simp only [exA, List.mem_singleton] at hv
+    subst hv
+    exact ⟨rfl, by simp [Arith.le, Ext.le, Arith.zero, Arith.ofInt], Or.inr rfl⟩
+  have hfin : FiniteLits (α := Ext ℚ) exA = true := by
+    simp [FiniteLits, exA, allLits, Arith.isFinite, Ext.isFinite]
+  have hc := exA_compile (.fin 0)
+  have key := @compile_domains_wellformed ℚ _ _ _ _ exA 0 0
+    (assemble exA (Ctx.fromVar "x" Arith.one) exA_final) hdecl hfin
+  rw [fieldExact_rat] at key
+  exact ⟨_, hc, key hc⟩
 
 end Rooc.Props.C08
